@@ -761,6 +761,15 @@ Theorem c16_type_text_property :
   (forall raw b c, trun lower vt_lookup_tab kv_type_prog raw = (b, Known c) ->
      trun lower vt_lookup_tab kv_type_prog (kv_type_text (Known c)) = (false, Known c)).
 Proof. exact (type_text_property_gen kv_type_prog io_type_prog vt_lookup_tab TARGET_DESTINATION). Qed.
+(** the documented I/O type decay, for the generated VALUE_TO_IO_DECAY and the literal spellings of IODef.export: what is written for
+    a member reads back as the decayed member, and the next parse + export writes the same text again *)
+Definition io_decay_table_ok : bool := io_decay_ok lower vt_lookup_tab TARGET_DESTINATION io_decay_tab io_special_text.
+Theorem c16_io_decay_text_fixpoint : forall fold tab sp decay_tab special, io_decay_ok fold tab sp decay_tab special = true ->
+  forall c d, In (c, d) decay_tab ->
+  let text := io_type_text (io_text_of decay_tab special) (Known c) in
+  spec_io fold tab sp text = (false, Known (io_decay_of decay_tab c)) /\
+  io_type_text (io_text_of decay_tab special) (snd (spec_io fold tab sp text)) = text.
+Proof. exact io_decay_fixpoint. Qed.
 (** the nearby wrong shape — casefold first, then look up and fall back to the folded text — loses the case of `Locale_ID` *)
 Example c16_fold_then_fallback_refuted :
   trun lower [] fold_first_prog (kv_type_text (Custom LOCALE_ID)) = (false, Custom (lower LOCALE_ID)) /\ lower LOCALE_ID <> LOCALE_ID
